@@ -196,7 +196,7 @@ func (a *remoteAuthorizer) WithConfig(rawConfig map[string]any) (Authorizer, err
 		Payload                  template.Template `mapstructure:"payload"`
 		Expressions              []Expression      `mapstructure:"expressions"                          validate:"dive"`
 		ResponseHeadersToForward []string          `mapstructure:"forward_response_headers_to_upstream"`
-		CacheTTL                 time.Duration     `mapstructure:"cache_ttl"`
+		CacheTTL                 *time.Duration    `mapstructure:"cache_ttl"`
 		Values                   values.Values     `mapstructure:"values"`
 	}
 
@@ -218,8 +218,11 @@ func (a *remoteAuthorizer) WithConfig(rawConfig map[string]any) (Authorizer, err
 		expressions: x.IfThenElse(len(expressions) != 0, expressions, a.expressions),
 		headersForUpstream: x.IfThenElse(len(conf.ResponseHeadersToForward) != 0,
 			conf.ResponseHeadersToForward, a.headersForUpstream),
-		ttl: x.IfThenElse(conf.CacheTTL > 0, conf.CacheTTL, a.ttl),
-		v:   a.v.Merge(conf.Values),
+		// a ttl of 0 configured on a rule level disables caching
+		ttl: x.IfThenElseExec(conf.CacheTTL != nil,
+			func() time.Duration { return *conf.CacheTTL },
+			func() time.Duration { return a.ttl }),
+		v: a.v.Merge(conf.Values),
 	}, nil
 }
 
